@@ -146,8 +146,45 @@ def run(tier, seed, replay):
         if name != "_batch":
             k = int(name[1:])
             out.violation("does-not-compile:" + specs[k]["what"][0], "accepted getter configuration does not compile: %s" % lines[:3], dict(common.slim(specs[k], obs[k]), compiler_output=lines[:10]))
+    # ---- run-time: a getter returns the same object as Get(name) converted to T; Must variants panic iff there is an error
+    from . import rtcommon
+    import re as _re
+    rs, hs, gs = rtcommon.gen_cases(seed, "c13rt", 25 if tier == "quick" else 400, weights={"getter": 1.0, "todo": 0.1, "failing": 0.1, "decorators": 0.0}, hist_len=0)
+    for k, sp in enumerate(rs):
+        h = []
+        for n, sv in sp["cfg"]["services"].items():
+            g = sv.get("getter")
+            if g:
+                h += [{"op": "get", "name": n}, {"op": "getter", "name": g}, {"op": "getterctx", "ctx": 1, "name": g + "InContext"}]
+                if sv.get("must_getter"):
+                    h += [{"op": "getter", "name": "Must" + g}, {"op": "getterctx", "ctx": 1, "name": "Must" + g + "InContext"}]
+        hs[k] = h
+    robs, rl, ml, racc = rtcommon.run_histories(out, tooldir, env, rs, hs, "C13 getters at run time", "C13", compare=True)
+    strip = lambda s: _re.sub(r";#\d+\)", ";#)", s)
+    gstat = {"getter_calls": 0, "must_panics": 0}
+    for k in racc:
+        last_get = None
+        for o, line in zip(hs[k], rl[k]):
+            if o["op"] == "get":
+                last_get = line
+                continue
+            gstat["getter_calls"] += 1
+            rep = dict(common.slim(rs[k], robs[k]), history=hs[k], results=rl[k])
+            if line.startswith("?(") and "nomethod" in line:
+                out.violation("getter-missing", "method %s does not exist on the generated container" % o["name"], rep)
+            elif last_get.startswith("E("):
+                if o["name"].startswith("Must"):
+                    gstat["must_panics"] += 1
+                    if not line.startswith("PANIC("):
+                        out.violation("must-does-not-panic", "%s does not panic although Get fails" % o["name"], rep)
+                elif not line.startswith("E("):
+                    out.violation("getter-hides-error", "%s returns %s although Get fails" % (o["name"], line[:120]), rep)
+            else:
+                if strip(line) != strip(last_get):
+                    out.violation("getter-differs-from-get", "%s returns %s, Get returns %s" % (o["name"], line[:200], last_get[:200]), rep)
+    dist["runtime"] = gstat
     out.coverage.update({
-        "evaluations": len(specs), "distinct_nontrivial": len(nontrivial), "programs": len(items), "exhaustive": tier == "thorough",
+        "evaluations": len(specs) + sum(len(h) for h in hs), "distinct_nontrivial": len(nontrivial), "programs": len(items) + len(racc), "exhaustive": tier == "thorough",
         "rule": "truth table getter{unset,G} x type form x must_getter{unset,true,false} x default_must_getter{unset,true,false} x meta names set/unset; getters equal to every method/field of the embedded container, Must-/InContext-shaped getters, equal getters on two services, derived-name near-collisions; non-trivial = distinct generated method-name set",
         "distribution": dist, "samples": samples or [{"note": "none"}],
     })
